@@ -108,6 +108,8 @@ class GuardedStep(Rule):
 def guard_from_bool_call(T, callee_suffix):
     """guard = value of a bool whose term contains a call to callee_suffix"""
     def g(b, bi, t):
+        if t['op']['k'] not in ('copy', 'move') or t['op']['pl']['p'] or b.lty(t['op']['pl']['l']).get('k') != 'bool':
+            return None         # only a branch on the boolean itself, not the Ready/Pending or `?` dispatches on its way
         term, flipped = bool_switch_polarity(b, T, t)
         if not has_call(term, callee_suffix):
             return None
